@@ -146,6 +146,13 @@ def skewed(b, rng, skew, last):
         if skew == 0:
             return v
         sh = b.sh
+        if b.term.kind == "columns" and skew == 2 and isinstance(v, list) and len(v) >= 2:
+            # leading cells empty, payload only in a late column
+            k = 1 + b.rng.below(len(v) - 1)
+            e = b"" if isinstance(v[0], bytes) else ([] if isinstance(v[0], list) else v[0])
+            # long enough that omitting it cannot hide behind the structural bytes of the columns vector
+            late = [((x * 80 if len(x) < 50 else x) if x else b"payload " * 40) if isinstance(x, bytes) else x for x in v[k:]]
+            return [e] * k + late
         if sh[0] == "res" and v[0] == ("ok" if skew == 1 else "err"):
             continue
         if sh[0] == "opt" and ((v is None) == (skew == 1)):
